@@ -90,7 +90,7 @@ def c17(ctx: Ctx):
     for f in fid:
         kinds[f.get("what", "?")] = kinds.get(f.get("what", "?"), 0) + 1
     ctx.extra["model_fidelity_by_kind"] = kinds
-    ctx.extra["model_fidelity_samples"] = [f for f in fid if not str(f.get("what", "")).startswith("the library re-marshals")][:5]
+    ctx.extra["model_fidelity_samples"] = fid[:5]
     failed = {}
     for v in viol:
         k = "%s [%s]" % (v.get("failed"), v.get("class"))
